@@ -101,7 +101,7 @@ def model_fail(sc):
             if st.startswith(pre):
                 return [kind, stages.index(st[len(pre):]) + 1, k]
     if sc["consumer"]:
-        return ["consumer" if sc["consumer"][0] == "raise" else "stop", 0, sc["consumer"][1] + 1]
+        return [dict(raise_="consumer", close="stop", pause="pause")[sc["consumer"][0].replace("raise", "raise_")], 0, sc["consumer"][1] + 1]
     return ["none", 0, 0]
 
 
@@ -113,27 +113,27 @@ def relay_record(sc, tracer, o):
     return dict(cap=sc["max_messages"], lazy=bool(sc["lazy"]), fail=model_fail(sc), saved=tracer.saved(), events=evs)
 
 
-def relay_validate(chk, results):
-    """Trace validation of the recorded chain runs against spec/Pipeline.tla (PipelineTrace.tla), one TLC run per saved set."""
+def relay_validate(chk, results, pid="C06"):
+    """Trace validation of the recorded chain runs against spec/Pipeline.tla (PipelineTrace.tla), one TLC run per (saved set, run length)."""
     groups = {}
     for r in results:
         if r.get("relay"):
-            groups.setdefault(tuple(r["relay"]["saved"]), []).append(r)
+            groups.setdefault((tuple(r["relay"]["saved"]), r["sc"].get("n", PL.NCHUNKS)), []).append(r)
     nok = 0
-    for saved, rs in sorted(groups.items()):
+    for (saved, nchunks), rs in sorted(groups.items()):
         fails = sorted({tuple(r["relay"]["fail"]) for r in rs})
         caps = sorted({r["relay"]["cap"] for r in rs})
         mc = (f"---- MODULE MCT ----\nEXTENDS PipelineTrace\nFailDef == {V.to_tla(set(fails))}\nSavedDef == {V.to_tla(set(saved))}\n"
               f"CapDef == {V.to_tla(set(caps))}\n====\n")
-        cfg = (f"SPECIFICATION TraceSpec\nCONSTANTS NS = 3 NChunks = {PL.NCHUNKS} MainKills = TRUE LazySet = {{TRUE, FALSE}}\n"
+        cfg = (f"SPECIFICATION TraceSpec\nCONSTANTS NS = 3 NChunks = {nchunks} MainKills = TRUE Backpressure = TRUE LazySet = {{TRUE, FALSE}}\n"
                "CONSTANT FailSet <- FailDef\nCONSTANT Saved <- SavedDef\nCONSTANT CapSet <- CapDef\n"
-               "INVARIANT Progress\nINVARIANT EagerCap\nINVARIANT TraceEveryoneStops\nINVARIANT CallerOutcome\n"
+               "INVARIANT Progress\nINVARIANT EagerCap\nINVARIANT TraceEveryoneStops\nINVARIANT CallerOutcome\nINVARIANT PauseBound\n"
                "POSTCONDITION AllAccepted\nCHECK_DEADLOCK FALSE\n")
         d = V.stage_spec(["Pipeline", "PipelineTrace"], {"MCT.tla": mc, "MCT.cfg": cfg})
         with open(os.path.join(d, "traces.json"), "w") as f:
             json.dump([dict(cap=r["relay"]["cap"], lazy=r["relay"]["lazy"], fail=r["relay"]["fail"], events=r["relay"]["events"]) for r in rs], f)
         r = V.run_tlc(d, "MCT", "MCT.cfg", workers=1, timeout=3000, env={"TRACE_FILE": os.path.join(d, "traces.json")}, heap="4g")
-        chk.add_tlc(r, f"trace validation of {len(rs)} real chain runs against Pipeline.tla, saved={saved}")
+        chk.add_tlc(r, f"trace validation of {len(rs)} real chain runs ({nchunks} source chunks) against Pipeline.tla, saved={saved}")
         rej = {int(a): int(b) for a, b in re.findall(r'REJECTED trace", (\d+), "at event", (\d+)', r.out)}
         if not r.ok and not rej and not r.violated:
             raise V.MachineryError("PipelineTrace failed to run: " + r.out[-2000:])
@@ -145,7 +145,7 @@ def relay_validate(chk, results):
             sc = rr["sc"]
             inj = f"{sc['fail'][0]}:{sc['fail'][1]}" if sc["fail"] else (f"consumer_{sc['consumer'][0]}:{sc['consumer'][1]}" if sc["consumer"] else "none")
             evs = rr["relay"]["events"]
-            chk.violation(f"C06:relay-trace:{'lazy' if sc['lazy'] else 'eager'}:mm{sc['max_messages']}:{inj}:rejected",
+            chk.violation(f"{pid}:relay-trace:{'lazy' if sc['lazy'] else 'eager'}:mm{sc['max_messages']}:{inj}:rejected",
                           f"real run of the chain ({inj}, lazy={sc['lazy']}, max_messages={sc['max_messages']}, schedule seed {rr['seed']}) is not a "
                           f"behaviour of spec/Pipeline.tla: rejected at event {ev} of {len(evs)}"
                           + (f" ({r.violated} violated along the trace)" if ev < 0 else f": {json.dumps(evs[ev - 1]) if 0 < ev <= len(evs) else ''}"),
@@ -183,7 +183,7 @@ def model_job(arg):
     mode = arg[6] if len(arg) > 6 else "full"        # full: exhaustive + liveness; safety: exhaustive, invariants only; simulate: random behaviours
     mc = (f"---- MODULE MC ----\nEXTENDS Pipeline\nFailDef == {V.to_tla(set(tuple(f) for f in fails))}\nSavedDef == {V.to_tla(set(saved))}\n"
           f"CapDef == {V.to_tla(set(caps))}\n====\n")
-    cfg = (f"SPECIFICATION Spec\nCONSTANTS NS = {ns} NChunks = {nch} MainKills = {V.to_tla(mainkills)} LazySet = {{TRUE, FALSE}}\n"
+    cfg = (f"SPECIFICATION Spec\nCONSTANTS NS = {ns} NChunks = {nch} MainKills = {V.to_tla(mainkills)} Backpressure = TRUE LazySet = {{TRUE, FALSE}}\n"
            "CONSTANT FailSet <- FailDef\nCONSTANT Saved <- SavedDef\nCONSTANT CapSet <- CapDef\n"
            "INVARIANT NoDeadlock\nINVARIANT EveryoneStops\nINVARIANT CallerOutcome\n"
            "INVARIANT EagerCap\n" + ("PROPERTY Terminates\n" if mode == "full" else "") + "CHECK_DEADLOCK FALSE\n")
